@@ -48,10 +48,12 @@ Definition lres_eqb (a b : lres) : bool :=
   end.
 
 (* snapshots: repos by root version: (root version, nodes (version, (parents, children, locked,
-   branch)), data (name, instance id)); then the values read back for the workload's key probes *)
+   branch)), data (name, instance id)); then the values read back for the workload's key probes;
+   then (only for processes started after a crash, else (0,0)) the version id and the instance id
+   the server handed out to a repo and an instance created after the snapshot was taken *)
 Definition snap_node : Type := N * (list N * list N * bool * N).
 Definition snap_repo : Type := N * list snap_node * list (N * N).
-Definition snap : Type := option (list snap_repo * list N).
+Definition snap : Type := option (list snap_repo * list N * (N * N)).
 
 Inductive c04case :=
 (* records, first offset, segments; [after] = records appended by a re-opened engine after the cut
@@ -160,12 +162,12 @@ Definition srepo_eqb (a b : snap_repo) : bool :=
 Definition repos_eqb := list_eqb srepo_eqb.
 Definition snap_eqb (a b : snap) : bool :=
   match a, b with
-  | Some (r, k), Some (r', k') => repos_eqb r r' && list_eqb N.eqb k k'
+  | Some (r, k, _), Some (r', k', _) => repos_eqb r r' && list_eqb N.eqb k k'
   | None, None => true
   | _, _ => false
   end.
 Definition snap_repos_are (s : snap) (r : list snap_repo) : bool :=
-  match s with Some (r', _) => repos_eqb r r' | None => false end.
+  match s with Some (r', _, _) => repos_eqb r r' | None => false end.
 
 (* model run: states after start-up and after each operation, and each operation's writes *)
 Fixpoint mrun (m : pmgr) (ops : list (option pop)) : list pmgr * list (list pwrite) :=
@@ -182,13 +184,13 @@ Fixpoint cumul (acc : nat) (wss : list (list pwrite)) : list nat :=
   | ws :: r => (acc + length ws)%nat :: cumul (acc + length ws) r
   end.
 
-Definition recover_snap (img : image) (k : nat) : option (list snap_repo) :=
+Definition recover_snap (img : image) (k : nat) : option (list snap_repo * (N * N)) :=
   match recover conf img with
   | Ok (m, wr) =>
     match k with
-    | O => Some (canon m)
+    | O => Some (canon m, (m_vid m, m_iid m))
     | _ => match recover conf (apply_ws img (firstn k wr)) with
-           | Ok (m2, _) => Some (canon m2)
+           | Ok (m2, _) => Some (canon m2, (m_vid m2, m_iid m2))
            | _ => None
            end
     end
@@ -208,7 +210,7 @@ Definition crash_model_ok (ops : list (option pop)) (trace : list N) (cum_meta :
        let '(is_meta, eff, j, k, s) := pt in
        if is_meta then
          match recover_snap (apply_ws empty_image (firstn eff W)) k, s with
-         | Some r, Some (r', _) => repos_eqb r r'
+         | Some (r, ids), Some (r', _, ids') => repos_eqb r r' && nn_eqb ids ids'
          | None, None => true
          | _, _ => false
          end
@@ -216,14 +218,24 @@ Definition crash_model_ok (ops : list (option pop)) (trace : list N) (cum_meta :
          (* a data-store write: the metadata is that of the state before the operation, or (the
             instance / repo deletions run their key deletion concurrently with the blob write) after *)
          match nth_error (m0 :: ms) (j - 1), nth_error (m0 :: ms) j, s with
-         | Some m, Some m', Some (r', _) => repos_eqb (canon m) r' || repos_eqb (canon m') r'
-         | Some m, None, Some (r', _) => repos_eqb (canon m) r'
+         | Some m, Some m', Some (r', _, _) => repos_eqb (canon m) r' || repos_eqb (canon m') r'
+         | Some m, None, Some (r', _, _) => repos_eqb (canon m) r'
          | _, _, _ => false
          end) pts.
 
+(* ids handed out after recovery must not be in use: the new root's version id is no node's, the
+   new instance's id is no instance's *)
+Definition ids_fresh (s : snap) : bool :=
+  match s with
+  | Some (rs, _, (nv, ni)) =>
+    forallb (fun r : snap_repo => let '(_, ns, d) := r in
+               forallb (fun n : snap_node => negb (fst n =? nv)) ns && forallb (fun x : N * N => negb (snd x =? ni)) d) rs
+  | None => true
+  end.
+
 (* the property on what the implementation showed: the next process starts, and shows the
    snapshot taken before or after the interrupted operation (4: did not start; 5: neither; 6: neither,
-   at a key-value deletion of an instance delete) *)
+   at a key-value deletion of an instance delete; 7: an id issued after recovery is already in use) *)
 Definition crash_class (ops : list (option pop)) (refs : list snap) (pts : list (bool * nat * nat * nat * snap)) : nat :=
   fold_left (fun (acc : nat) (pt : bool * nat * nat * nat * snap) =>
     if negb (Nat.eqb acc 0) then acc else
@@ -234,7 +246,8 @@ Definition crash_class (ops : list (option pop)) (refs : list snap) (pts : list 
       let before := nth_error refs (j - 1) in
       let after := nth_error refs j in
       let is := fun (r : option snap) => match r with Some x => snap_eqb s x | None => false end in
-      if is before || is after then 0%nat
+      if negb (ids_fresh s) then 7%nat
+      else if is before || is after then 0%nat
       else
         (* known finding C04-deletedata-not-atomic: process death between the deletion of an
            instance's key-values and the save of the repo without it *)
